@@ -99,3 +99,30 @@ CHECKS["C17"] = dict(
     text="For Rep in {int32,int64,float,double} x 9 periods and ALL counts: duration -> quantity -> duration is the identity bit-for-bit (implicit and as_chrono_duration), as_quantity has the count in seconds x Period; "
          "mixed duration/quantity comparisons, + and - equal the std::chrono computation whenever that computation does not trap (32-bit: operands in range); is_convertible<duration,Q> equals that of the corresponding quantity and the policy model.",
     note=TB + "; libstdc++ chrono as shipped; NaN counts excluded for <= and >= (libstdc++ defines a<=b as !(b<a)); periods enumerated.")
+CHECKS["C11"] = dict(
+    category="model_checking",
+    technique="bounded symbolic execution of clang LLVM IR of the value-level magnitude helpers (loops unwound with unwinding assertions), SMT NIA with quotient/remainder abstraction; closed compile-time grid vs exact model",
+    text="For ALL 64-bit bases >= 1: checked_int_pow<uintmax/intmax>(base, e) (e = 0..4) and base_power_value<T, N, 1>(base) answer OK exactly when base^e fits and then return base^e exactly; "
+         "safe_to_cast_to<T>(x) == (min(T) <= x <= max(T)) for all x; checked_int_pow<uint8/int8> with base AND exponent symbolic (thorough). Closed grid: representable_in / get_value / is_integer / "
+         "is_rational / numerator / denominator for magnitudes with primes up to 2^64-59, rational powers and pi, straddling every type limit, vs exact big-integer / interval model (floats: positive, within 4 ulp).",
+    note=TB + "; root() and product<> not encoded symbolically (seen only through the closed grid); 'compile error rather than wrong number' observed through bounded must-not-compile probes.")
+CHECKS["C15"] = dict(
+    category="model_checking",
+    technique="bounded symbolic execution of clang LLVM IR, SMT (QF_FP for rounding brackets, NIA for inversions); libm calls as uninterpreted functions compared with std reference kernels",
+    text="For ALL inputs per (rep, unit pair) instance: round/floor/ceil _in/_as equal std::round/floor/ceil of the value y the library itself converts, and for every finite y the result is integral and brackets y "
+         "(floor <= y < floor+1, ceil-1 < y <= ceil, |round-y| <= 1/2 ties away); inverse_in/as == trunc(K/x) with the model's exact K for all x != 0 and inv(inv(n)) == n for n in [1,1000]; "
+         "sin/cos/tan/arc*/hypot/fmod/remainder/atan2/min/max/clamp/abs/copysign/isnan equal the std function on operands expressed in radians / the common unit; result units closed.",
+    note=TB + "; the rounding bounds are relative to the converted value y (its closeness to the true value is the closed 4-ulp bound on the constant); libm error itself outside; refusal of K < 10^6 observed only on enumerated probes; x == 0 for integral inversion assumed away.")
+CHECKS["C16"] = dict(
+    category="model_checking",
+    technique="solver-decided identity kernels (SMT over clang LLVM IR) plus closed compile-time grid compared with the exact unit/magnitude model",
+    text="For ALL x: multiplying/dividing numbers and quantities by a constant leaves the stored number bit-identical (only the unit changes). Closed grid over the 9 library constants and generated constants "
+         "(integer, rational, huge-prime, irrational) x target units x 11 types: can_store_value_in<T>(u) equals 'exact ratio representable in T' and in<T>/as<T>/implicit conversion yield exactly that value; "
+         "where the model says not representable the in<T> kernel must be rejected by the compiler (observed, counted).",
+    note=TB + "; mostly closed (compile-time) facts; known finding D11 (denormal-range 1/N ratios for floating T) excluded by key and reported as KNOWN-FINDING.")
+CHECKS["C18"] = dict(
+    category="model_checking",
+    technique="bounded symbolic execution of clang LLVM IR: digit-count loops unwound (20) for all 64-bit inputs; label arrays read at a symbolic index (SMT ite-chains over constant data) vs an independent grammar model",
+    text="string_size_unsigned(x) == number of decimal digits for ALL x < 2^64 and string_size(x) for all x > INT64_MIN; for a grid of unit expressions, IToA/UIToA arguments and magnitude labels: for ALL indices i <= len the "
+         "i-th character equals the independently generated expected label, the terminator is NUL and sizeof == len+1; labels of distinct units differ (closed).",
+    note=TB + "; operator<< (iostream virtual dispatch, locale) is outside; unit expressions enumerated.")
